@@ -208,3 +208,18 @@ def stats(case, obs, dist):
     dist['cls_' + case['cls']] = dist.get('cls_' + case['cls'], 0) + 1
     if case.get('mixed'):
         dist['mixed_scope_cases'] = dist.get('mixed_scope_cases', 0) + 1
+
+
+def extra_checks(tier, seed):
+    """the asyncio copy of the dispatch (_trigger_event_nested / trigger_nested of HierarchicalAsyncMachine): the same
+    event declared in several scopes (state definitions and globally), conditions that block, parallel regions;
+    coroutine callbacks that suspend; complete traces against the synchronous Coq engine"""
+    n = 300 if tier == 'quick' else 8000
+    cases, bad = hsm.async_stream('C03a', seed, n, p_parallel=0.4, single_scope=False, max_events=2)
+    multi = sum(1 for c in cases if _multi_scope_events(c))
+    detail = dict(cases=len(cases), disagreements=len(bad), cases_with_an_event_in_several_scopes=multi)
+    if bad:
+        c, m, i = bad[0]
+        return [('async_dispatch', False, detail,
+                 dict(kind='counterexample', stream='HierarchicalAsyncMachine dispatch, mixed scopes', case=c, model_obs=m, impl_obs=i))]
+    return [('async_dispatch', True, detail, {})]
